@@ -1781,7 +1781,7 @@ def sysmat_lines(case, m, assigns, linear):
     try:
         systems = m.systemize(unpack_singleton=False)
     except TypeError:
-        systems = None
+        return [], []          # some equation (possibly a measurement equation, which `sysmat` does not carry) is rejected: nothing to compare
     lines, impl = [], []
     nT = len(sv.transition_eids)
     for vid, asg in enumerate(assigns):
